@@ -11,7 +11,7 @@ use serde_json::{json, Value};
 use std::path::PathBuf;
 
 pub const SEGS: &[&str] = &[
-    "..", ".", "", "sub", "ten.txt", "secret.txt", "link", "linkf", "%2e%2e", "%2E%2E", ".%2e", "..%2f", "..%5c", "...", "..;", "..\\",
+    "..", ".", "", "sub", "ten.txt", "secret.txt", "link", "linkf", "%2e%2e", "%2E%2E", ".%2e", "..%2f", "..%5c", "...", "..;", "..\\", "deep", "up",
 ];
 pub const PREFIXES: &[&str] = &["/", "", "//", "/./", "http://h/", "//h/", "@h/", "\\"];
 pub const SUFFIXES: &[&str] = &["", "/", "?x=1", "#f", "?x=..", "/.."];
@@ -61,6 +61,15 @@ pub fn build_site(depths: usize) -> Site {
         std::fs::create_dir_all(&sub).unwrap();
         std::fs::write(sub.join("ten.txt"), format!("sub-ten-LEVEL{}\n", lvl)).unwrap();
         std::fs::write(sub.join("secret.txt"), format!("{}-LEVEL{}-SUB\n", SECRET_TAG, lvl)).unwrap();
+        // relative links the owner placed at depth 0, 1 and 2 of every directory; each climbs
+        // exactly as far as it descended, so it stays inside (and names this level's file)
+        std::fs::write(d.join("shared.txt"), format!("{}-LEVEL{} shared, reached through a relative link\n", SECRET_TAG, lvl)).unwrap();
+        let deep = sub.join("deep");
+        std::fs::create_dir_all(&deep).unwrap();
+        std::fs::write(deep.join("ten.txt"), format!("deep-ten-LEVEL{}\n", lvl)).unwrap();
+        let _ = std::os::unix::fs::symlink("shared.txt", d.join("up"));
+        let _ = std::os::unix::fs::symlink("../shared.txt", sub.join("up"));
+        let _ = std::os::unix::fs::symlink("../../shared.txt", deep.join("up"));
         let _ = std::os::unix::fs::symlink(&linked_dir, d.join("link"));
         let _ = std::os::unix::fs::symlink(&linked_file, d.join("linkf"));
     }
@@ -192,7 +201,12 @@ pub fn check(case: &Case, own_level: usize) -> (String, bool, Vec<(String, Strin
     let complete = out.panic.is_none() && out.raw.len() > 12;
     let class = match &out.panic {
         Some(p) => format!("panic:{}", panic_class(&p.message)),
-        None => format!("{}{}", status, if climbing { ":climbing" } else { "" }),
+        None => format!(
+            "{}{}{}",
+            status,
+            if climbing { ":climbing" } else { "" },
+            if contains(&out.raw, b"shared, reached through a relative link") { ":via-relative-link" } else { "" }
+        ),
     };
     (class, hostile && complete, fails)
 }
@@ -257,5 +271,5 @@ pub fn replay(v: &Value) -> Vec<Failure> {
     let (_, _, fails) = check(&case, case.depth + 1);
     std::env::set_current_dir("/").unwrap();
     let _ = std::fs::remove_dir_all(&site.scratch);
-    fails.into_iter().map(|(signature, detail)| Failure { signature, case: v.clone(), detail }).collect()
+    fails.into_iter().map(|(signature, detail)| Failure { signature, case: v.clone(), detail, hash: 0 }).collect()
 }
